@@ -189,6 +189,22 @@ def judge(c, d, out, rc, err):
                 "the file and continues: %s %s is %r, in the uninterrupted run %r"
                 % (it0 + K, R.auto_freq(c, K), "at step %d" % (it0 + t) if t is not None else "in the final state", obs, y, x),
                 K, "auto", t=t, obs=obs)
+    # a job resumed twice ends like the uninterrupted run
+    for K1, K2, fmt in c.get("chain_Ks", []):
+        lab = "%d_%d_%s" % (K1, K2, fmt)
+        C3 = runs.get("C3_" + lab)
+        evs = [e for n in ("C1_", "C2_", "C3_") for e in (runs.get(n + lab) or {"events": ["missing"]})["events"] if "err=ok" not in e]
+        if C3 is None or evs:
+            add("load-error", "chain:%s:not-loaded" % fam, "stop after steps %d and %d (%s), resumed twice: %s" % (it0 + K1, it0 + K2, fmt, evs[:1]), K2, fmt)
+            continue
+        dd = first_diff(U["steps"], C3["steps"], fU, pre + "C3_%s.colvars.state" % lab, off=K2, resumed=True,
+                        tf_lagged=c.get("tf_lagged", False), sleep_factor=c.get("sleep_factor", 0))
+        if dd:
+            t, (obs, x, y) = dd
+            when = "final" if t is None else ("at-restart-step" if t == K2 else "after")
+            add("resume", "chain:%s:%s:%s" % (fam, obs_class(obs), when),
+                "stopped after step %d, resumed, stopped after step %d, resumed (%s states): %s %s is %r, in the uninterrupted run %r"
+                % (it0 + K1, it0 + K2, fmt, "at step %d" % (it0 + t) if t is not None else "in the final state", obs, y, x), K2, fmt, t=t, obs=obs)
     # state handed over as a buffer in memory: same as through a file
     for K, fmt in c.get("buffer_Ks", []):
         lab = "%d_%s" % (K, fmt)
